@@ -17,6 +17,8 @@ def dotted(root: str, rel: str) -> str:
 def project_trees(draw, root="proj", max_dirs=6, max_depth=4, names=NAMES, with_noise=True, min_files=2, pycache=False):
     """Returns {root, dirs:[rel], pyfiles:[rel], otherfiles:[rel]} ; no x.py next to a directory x/."""
     dirs = [""]
+    if draw(st.integers(0, 9)) == 0:
+        max_dirs, max_depth = max_dirs + 5, max_depth + 3  # a tenth of the projects are larger and deeper
     for _ in range(draw(st.integers(0, max_dirs))):
         parent = draw(st.sampled_from(dirs))
         depth = parent.count("/") + (1 if parent else 0)
